@@ -184,7 +184,7 @@ func CompareDigests(a, b []string, pa, pb [][]string) (class, detail string) {
 		}
 		if a[i] != b[i] {
 			var diff []string
-			orderOnly := true
+			orderOnly, gasOnly := true, true
 			for j := range pa[i] {
 				if j < len(pb[i]) && pa[i][j] != pb[i][j] {
 					name := strings.SplitN(pa[i][j], "=", 2)[0]
@@ -193,6 +193,9 @@ func CompareDigests(a, b []string, pa, pb [][]string) (class, detail string) {
 					if na != nb {
 						orderOnly = false
 						diff = append(diff, name)
+						if !preAnteGasOnly(pa[i][j], pb[i][j]) {
+							gasOnly = false
+						}
 					} else {
 						diff = append(diff, name+"(attribute order)")
 					}
@@ -201,6 +204,9 @@ func CompareDigests(a, b []string, pa, pb [][]string) (class, detail string) {
 			sort.Strings(diff)
 			if orderOnly {
 				return "event_attribute_order", fmt.Sprintf("block index %d: %v", i, diff)
+			}
+			if gasOnly {
+				return "pre_ante_failed_tx_gas", fmt.Sprintf("block index %d: gas_used of failed transactions differs: %v", i, diff)
 			}
 			return "result_or_state", fmt.Sprintf("block index %d differs in %v", i, diff)
 		}
@@ -252,4 +258,18 @@ func ReplicaMain(path string) {
 	}
 	d, p, halt := ReplayStream(s, 0)
 	json.NewEncoder(os.Stdout).Encode(map[string]interface{}{"digests": d, "parts": p, "halt": halt})
+}
+
+// preAnteGasOnly: two digests of the same transaction that differ only in the reported gas of a
+// failed transaction (names look like tx3(code=5,gas=147046)).
+func preAnteGasOnly(a, b string) bool {
+	na, nb := strings.SplitN(a, "=", 2)[0], strings.SplitN(b, "=", 2)[0]
+	if !strings.HasPrefix(na, "tx") || !strings.HasPrefix(nb, "tx") {
+		return false
+	}
+	ia, ib := strings.Index(na, ",gas="), strings.Index(nb, ",gas=")
+	if ia < 0 || ib < 0 || na[:ia] != nb[:ib] {
+		return false
+	}
+	return !strings.Contains(na[:ia], "code=0") && na != nb
 }
